@@ -105,7 +105,7 @@ theorem unwind_spec (kind : ErrKind) (ac : Bool) (stack : List Frame) :
         deliverFlat kind ac stack = .caught h rest.length ∧ rest.length ≤ stack.length) ∧
     (unwind ac stack = (none, []) → deliverFlat kind ac stack = .escaped kind) ∧
     (∀ f below, unwind ac stack = (none, f :: below) →
-        deliverFlat kind ac stack = deliverFlat (f.cross kind) (f.cross kind).allowCatch below ∧
+        deliverFlat kind ac stack = deliverFlat kind kind.allowCatch below ∧
           below.length < stack.length) := by
   induction stack with
   | nil => simp [unwind, deliverFlat]
@@ -141,19 +141,12 @@ theorem deliverTimeout_flat (stack : List Frame) : deliverTimeout stack = delive
 theorem deliverError_flat (stack : List Frame) : deliverError stack = deliverFlat .other true stack :=
   deliver_eq_flat _ _ _ _ (by omega)
 
-/-- a timeout passes every frame of every entry, as long as no native caller on the way replaces it
-by a string error -/
-theorem flat_timeout_escaped (stack : List Frame) (h : ∀ f ∈ stack, f.stringifies = false) :
+/-- a timeout passes every frame of every entry -/
+theorem flat_timeout_escaped (stack : List Frame) :
     deliverFlat .timeout false stack = .escaped .timeout := by
   induction stack with
   | nil => simp [deliverFlat]
-  | cons f rest ih =>
-    have hf : f.stringifies = false := h f (by simp)
-    have hr := ih (fun g hg => h g (by simp [hg]))
-    cases hb : f.barrier <;> simp [deliverFlat, hb, Frame.cross, hf, ErrKind.allowCatch, hr]
-
-theorem cross_other (f : Frame) : f.cross .other = .other := by
-  unfold Frame.cross; split <;> rfl
+  | cons f rest ih => cases hb : f.barrier <;> simp [deliverFlat, hb, ErrKind.allowCatch, ih]
 
 theorem flat_true_handler (stack : List Frame) :
     (∀ h, firstHandler stack = some h →
@@ -164,7 +157,7 @@ theorem flat_true_handler (stack : List Frame) :
   | cons f rest ih =>
     cases hc : f.catches with
     | nil =>
-      cases hb : f.barrier <;> simp [firstHandler, deliverFlat, hc, hb, ErrKind.allowCatch, cross_other] <;> grind
+      cases hb : f.barrier <;> simp [firstHandler, deliverFlat, hc, hb, ErrKind.allowCatch] <;> grind
     | cons h hs => simp [firstHandler, deliverFlat, hc]
 
 /-! ### arithmetic behind `bounded_slack` -/
